@@ -18,6 +18,20 @@ static VIRT_ON: AtomicBool = AtomicBool::new(true);
 static CASE_START_NS: AtomicU64 = AtomicU64::new(BASE_NS);
 /// wall time that passed inside synchronous code since the case began (not part of the op clock)
 static SKEW_NS: AtomicU64 = AtomicU64::new(0);
+/// length of one clock tick of the op language in ns (`adv n` = n ticks, `t=` in ticks): 1 ms by default, 1 µs for
+/// cases whose header says `tick=us` (sub-millisecond instants; only for middleware timed by `std::time::Instant`,
+/// tokio's timers have millisecond granularity)
+static TICK_NS: AtomicU64 = AtomicU64::new(1_000_000);
+pub fn set_tick_ns(ns: u64) {
+    TICK_NS.store(ns, Ordering::SeqCst);
+}
+pub fn tick_ns() -> u64 {
+    TICK_NS.load(Ordering::SeqCst)
+}
+/// a configured duration of `n` ticks
+pub fn ticks(n: u64) -> Duration {
+    Duration::from_nanos(n.saturating_mul(tick_ns()))
+}
 
 /// std's `Instant::now()` reaches the monotonic clock only through this libc symbol; the
 /// definition in the executable takes precedence over libc's at link time.
@@ -43,7 +57,7 @@ pub fn virt_now_ns() -> u64 {
     VIRT_NS.load(Ordering::SeqCst)
 }
 pub fn now_ms() -> u64 {
-    (VIRT_NS.load(Ordering::SeqCst) - CASE_START_NS.load(Ordering::SeqCst) - SKEW_NS.load(Ordering::SeqCst)) / 1_000_000
+    (VIRT_NS.load(Ordering::SeqCst) - CASE_START_NS.load(Ordering::SeqCst) - SKEW_NS.load(Ordering::SeqCst)) / tick_ns()
 }
 pub fn now_ns_in_case() -> u64 {
     VIRT_NS.load(Ordering::SeqCst) - CASE_START_NS.load(Ordering::SeqCst)
@@ -71,7 +85,7 @@ pub fn clock_selftest() {
 
 /// Advance both clocks by the same amount and let timers / spawned tasks run.
 pub async fn advance(ms: u64, yields: usize) {
-    advance_ns(ms * 1_000_000, yields).await
+    advance_ns(ms * tick_ns(), yields).await
 }
 pub async fn advance_ns(ns: u64, yields: usize) {
     VIRT_NS.fetch_add(ns, Ordering::SeqCst);
@@ -123,6 +137,9 @@ fn ann_push(line: &str) {
         l.push_str(&x);
     }
     ANN.lock().unwrap_or_else(|e| e.into_inner()).push(l);
+}
+fn ann_push_plain(line: &str) {
+    ANN.lock().unwrap_or_else(|e| e.into_inner()).push(line.to_string());
 }
 pub fn take_annotated() -> Vec<String> {
     std::mem::take(&mut *ANN.lock().unwrap_or_else(|e| e.into_inner()))
@@ -353,7 +370,54 @@ impl Future for InnerFut {
 impl Drop for InnerFut {
     fn drop(&mut self) {
         if !self.done {
+            run_drop_hook(self.c);
             log(format!("{}inner_drop {} {}", self.label, self.c, self.k));
+        }
+    }
+}
+
+// ------------------------------------------------------------------ requests made from a destructor
+
+/// Makes a request the way `Mw::arrive` does; owns everything it needs (a clone of the service), so that it can
+/// be used from inside a destructor.
+pub type Requester = std::rc::Rc<dyn Fn(usize, &Kv) -> Option<CallFut>>;
+
+thread_local! {
+    /// `manual ondrop c=<c> by=<c2> <arrive words>`: when the unfinished inner future of caller c is destroyed,
+    /// request c2 arrives from inside that destructor, before the inner future has released anything
+    static DROP_HOOKS: std::cell::RefCell<BTreeMap<usize, (usize, String, Requester)>> = std::cell::RefCell::new(BTreeMap::new());
+    static PARKED: std::cell::RefCell<Vec<(usize, Slot)>> = std::cell::RefCell::new(Vec::new());
+    static KNOWN: std::cell::RefCell<std::collections::BTreeSet<usize>> = std::cell::RefCell::new(Default::default());
+}
+
+fn run_drop_hook(c: usize) {
+    let job = DROP_HOOKS.with(|h| h.borrow_mut().remove(&c));
+    let Some((c2, words, req)) = job else { return };
+    if KNOWN.with(|k| !k.borrow_mut().insert(c2)) {
+        return;
+    }
+    log_raw(format!("#ondrop {} {}", c, c2));
+    // for the model the request arrives, and is polled once, just BEFORE the operation that destroys the inner
+    // call: the call is still in flight while it is being torn down, so whatever it holds (a slot, a key, a trial)
+    // is still held
+    ann_push_plain(&format!("arrive {} {}", c2, words));
+    let ws: Vec<&str> = words.split_whitespace().collect();
+    let kv = Kv::parse(&ws);
+    let Some(f) = req(c2, &kv) else { return };
+    ann_push_plain(&format!("poll {}", c2));
+    let mut slot = Slot { fut: f, flag: Arc::new(Flag::new(false)), polled: true, keep: kv.u64("keep", 0) == 1, coop: false, burn: false };
+    log_raw(format!("#fp {} {}", c2, now_ms()));
+    let waker = Waker::from(slot.flag.clone());
+    let mut cx = Context::from_waker(&waker);
+    match catch_unwind(AssertUnwindSafe(|| poll_slot(&mut slot.fut, &mut cx, false))) {
+        Ok(Poll::Pending) => PARKED.with(|p| p.borrow_mut().push((c2, slot))),
+        Ok(Poll::Ready(v)) => {
+            drop(slot);
+            log(format!("result {} {}", c2, v));
+        }
+        Err(_) => {
+            log(format!("result {} panic", c2));
+            let _ = catch_unwind(AssertUnwindSafe(move || drop(slot)));
         }
     }
 }
@@ -667,11 +731,18 @@ pub trait Mw {
     fn yields(&self) -> usize {
         0
     }
+    /// a self-contained way of making a request (for `manual ondrop`); `None`: not supported by this adapter
+    fn requester(&self) -> Option<Requester> {
+        None
+    }
 }
 
 pub async fn run_ops(mw: &mut dyn Mw, ops: &[String]) {
     let mut callers = Callers::new();
     let y = mw.yields();
+    DROP_HOOKS.with(|h| h.borrow_mut().clear());
+    PARKED.with(|p| p.borrow_mut().clear());
+    KNOWN.with(|k| k.borrow_mut().clear());
     for line in ops {
         let words: Vec<&str> = line.split_whitespace().collect();
         if words.is_empty() {
@@ -681,10 +752,11 @@ pub async fn run_ops(mw: &mut dyn Mw, ops: &[String]) {
         match words[0] {
             "arrive" => {
                 if let Some(c) = arg_c {
-                    if callers.seen.contains(&c) {
+                    if callers.seen.contains(&c) || KNOWN.with(|k| k.borrow().contains(&c)) {
                         log_raw("noop".into());
                     } else {
                         callers.seen.insert(c);
+                        KNOWN.with(|k| k.borrow_mut().insert(c));
                         let kv = Kv::parse(&words[2..]);
                         if let Some(f) = mw.arrive(c, &kv) {
                             callers.insert_full(c, f, kv.u64("keep", 0) == 1, kv.u64("coop", 0) == 1, kv.u64("burn", 0) == 1);
@@ -743,17 +815,35 @@ pub async fn run_ops(mw: &mut dyn Mw, ops: &[String]) {
                 let kv = Kv::parse(&words[1..]);
                 mw.probe(words.get(1).cloned().unwrap_or(""), &kv);
             }
+            "manual" if words.get(1) == Some(&"ondrop") => {
+                let kv = Kv::parse(&words[2..]);
+                if let (Some(c), Some(c2), Some(r)) = (kv.opt_u64("c"), kv.opt_u64("by"), mw.requester()) {
+                    let rest: Vec<&str> = words[2..].iter().cloned().filter(|w| !w.starts_with("c=") && !w.starts_with("by=")).collect();
+                    DROP_HOOKS.with(|h| h.borrow_mut().insert(c as usize, (c2 as usize, rest.join(" "), r)));
+                }
+            }
             "manual" => {
+                if words.get(1) == Some(&"dropsvc") {
+                    // an armed destructor hook owns a service handle: "every handle dropped" disarms it
+                    DROP_HOOKS.with(|h| h.borrow_mut().clear());
+                }
                 let kv = Kv::parse(&words[1..]);
                 mw.manual(words.get(1).cloned().unwrap_or(""), &kv);
             }
             _ => {}
+        }
+        // requests made from inside a destructor during this operation: their futures join the callers
+        let parked: Vec<(usize, Slot)> = PARKED.with(|p| std::mem::take(&mut *p.borrow_mut()));
+        for (c2, slot) in parked {
+            callers.seen.insert(c2);
+            callers.slots.insert(c2, slot);
         }
         yields(y.max(1)).await;
         if words[0] != "settle" && words[0] != "dropall" {
             ann_push(line.trim());
         }
     }
+    DROP_HOOKS.with(|h| h.borrow_mut().clear());
     // end of case: drop whatever is still alive, in ascending id (events of the tear-down are not compared)
     log_raw("end".into());
     let live = callers.live();
